@@ -158,3 +158,48 @@ pub fn fix_r22_not_strict<S: DataMut<Elem = i32>>(a: &mut ArrayBase<S, Ix1>, piv
     a.swap(0, i - 1);
     i - 1
 }
+
+/// R24: a quickselect whose right-hand recursion rebases the index by k instead of k+1
+/// (`fix_r22_not_strict` stands in for the partition routine; only its contract is used).
+pub fn fix_r24_rebase_wrong<S: DataMut<Elem = i32>>(a: &mut ArrayBase<S, Ix1>, i: usize) -> i32 {
+    let n = a.len();
+    if n == 1 {
+        a[i].clone()
+    } else {
+        let k = fix_r22_not_strict(a, n / 2);
+        if i < k {
+            fix_r24_rebase_wrong(&mut a.slice_axis_mut(Axis(0), ndarray::Slice::from(..k)), i)
+        } else if i == k {
+            a[i].clone()
+        } else {
+            fix_r24_rebase_wrong(&mut a.slice_axis_mut(Axis(0), ndarray::Slice::from(k + 1..)), i - k)
+        }
+    }
+}
+
+/// R25: a bulk selection that never writes the exactly-found entry.
+pub fn fix_r25_found_not_written(mut array: ArrayViewMut1<'_, i32>, indexes: &mut [usize], values: &mut [i32]) {
+    let n = array.len();
+    if indexes.is_empty() {
+        return;
+    }
+    if n == 1 {
+        values[0] = array[0].clone();
+        return;
+    }
+    let k = fix_r22_not_strict(&mut array, n / 2);
+    let (found_exact, split) = match indexes.binary_search(&k) {
+        Ok(index) => (true, index),
+        Err(index) => (false, index),
+    };
+    let (smaller_indexes, other_indexes) = indexes.split_at_mut(split);
+    let (smaller_values, other_values) = values.split_at_mut(split);
+    let (bigger_indexes, bigger_values) = if found_exact {
+        (&mut other_indexes[1..], &mut other_values[1..])
+    } else {
+        (other_indexes, other_values)
+    };
+    fix_r25_found_not_written(array.slice_axis_mut(Axis(0), ndarray::Slice::from(..k)), smaller_indexes, smaller_values);
+    bigger_indexes.iter_mut().for_each(|x| *x -= k + 1);
+    fix_r25_found_not_written(array.slice_axis_mut(Axis(0), ndarray::Slice::from(k + 1..)), bigger_indexes, bigger_values);
+}
